@@ -32,12 +32,8 @@ def _sub(prog, rep, mod, pid):
     return sub
 
 
-def run(prog, rep, tier):
-    R121 = rep.rule("R12.1", "no file-acceptance threshold is selected by the length of block zero")
-    R122 = rep.rule("R12.2", "blocks are completely filled; write order independent of part sizes (from C05, C02)")
-    R123 = rep.rule("R12.3", "CLI block-size bounds are the constants the code enforces")
-
-    # ------------------------------------------------------------ R12.1
+def r121(prog, rep, R121):
+    """threshold-by-block-length findings of the blockzero_analysis family (shared with C02 R2.7)"""
     fam = [p for p in prog.facts.bodies if p.startswith(SP + "::blockzero_analysis") and "{closure" not in p]
     if len(fam) < 3:
         raise CheckerError("blockzero_analysis family has %d members" % len(fam))
@@ -82,19 +78,41 @@ def run(prog, rep, tier):
                     if d[1] != "call" and d[2][0] == "bin" and d[2][1] in ("Lt", "Le", "Gt", "Ge", "Eq", "Ne"):
                         if any(o[0] in ("cp", "mv") and o[1][0] in vt for o in (d[2][2], d[2][3])):
                             decides = True
-            mapname = ""
-            for x in b.origins(c.args[0], through_calls=("::deref", "Deref>::deref")):
-                if x[0] == "const":
-                    mapname = x[1][:80]
+            # which table: identified by its content (ranges and minimum counts from the lazy initialiser),
+            # so that a renamed static keeps its key while a different table is a different finding
+            sig = "?"
+            for x in b.origins(c.args[0]):
+                if x[0] == "call" and "as std::ops::Deref>::deref" in x[2]:
+                    ib = prog.body(x[2] + "::__static_ref_initialize", required=False)
+                    if ib is not None:
+                        ents = []
+                        for ic in ib.live_calls():
+                            if "RangeMap" in ic.d and ic.d.endswith("::insert") and len(ic.args) == 3 and ic.args[2][0] == "k":
+                                rng = []
+                                for o in ib.origins(ic.args[1]):
+                                    if o[0] == "agg":
+                                        st_ = ib.stmts(o[1])[o[2]]
+                                        rng = [ib.eval_int(a) if ib.eval_int(a) is not None else "?" for a in st_[2][2]]
+                                ents.append("%s..%s=%s" % (rng[0] if rng else "?", ("max" if rng and rng[1] == 18446744073709551615 else rng[1]) if len(rng) > 1 else "?", ic.args[2][2]))
+                        if ents:
+                            sig = ",".join(ents)
             rep.examined(R121, "%s|lookup" % p, sample={"fn": p.split("::")[-1], "lookup": c.f[:80], "key_from_block_length": key_tainted, "value_decides_a_branch": decides})
             if decides:
                 flagged = True
-                rep.violation(R121, "%s|threshold-by-block-length" % p,
-                              "%s: the minimum count that decides whether the file is accepted is looked up by the length of block zero; the same file is accepted at one --blocksz and rejected at another" % p)
-        # direct comparison of a block length with a constant that selects FileErr (the bytes test):
+                rep.violation(R121, "%s|threshold-by-block-length|%s" % (p, sig),
+                              "%s: the minimum count that decides whether the file is accepted is looked up by the length of block zero (table %s); the same file is accepted at one --blocksz and rejected at another" % (p, sig))
         mins = [c for c in b.live_calls() if c.d.endswith("cmp::min") or c.o.endswith("Ord::min")]
         if not lookups:
             rep.examined(R121, "%s|no-lookup" % p, sample={"fn": p.split("::")[-1], "range_lookups": 0, "min_calls": len(mins)})
+
+
+def run(prog, rep, tier):
+    R121 = rep.rule("R12.1", "no file-acceptance threshold is selected by the length of block zero")
+    R122 = rep.rule("R12.2", "blocks are completely filled; write order independent of part sizes (from C05, C02)")
+    R123 = rep.rule("R12.3", "CLI block-size bounds are the constants the code enforces")
+
+    # ------------------------------------------------------------ R12.1
+    r121(prog, rep, R121)
     # the bytes test `min(BLOCKZERO_ANALYSIS_BYTES_MIN, blocksz)` is constant over the permitted range
     cmin = prog.facts.consts.get(SP + "::BLOCKZERO_ANALYSIS_BYTES_MIN")
     bmin = prog.facts.consts.get("s4::BLOCKSZ_MIN") or prog.facts.consts.get("s4lib::readers::blockreader::BLOCKSZ_MIN")
@@ -171,6 +189,32 @@ def run(prog, rep, tier):
     rep.examined(R123, cb.path + "|bounds", sample={"enforced_values": sorted(vals), "BLOCKSZ_MIN constants": sorted(lows), "BLOCKSZ_MAX": want_hi})
     if not all(l in vals for l in lows) or want_hi not in vals:
         rep.violation(R123, cb.path + "|bounds", "cli_process_blocksz: does not compare the requested size with max(BLOCKSZ_MIN constants %s) and BLOCKSZ_MAX=%s (compares with %s)" % (sorted(lows), want_hi, sorted(vals)))
+
+    # ------------------------------------------------------------ R12.4 the stage-1 byte test looks at a constant-length prefix
+    import blockzero
+    R124 = rep.rule("R12.4", "the stage-1 NUL-byte test examines a prefix of constant length, not the whole first block")
+    bzb, tests = blockzero.analyze(prog)
+    if len(tests) != 1:
+        raise CheckerError("blockzero_analysis_bytes: %d quantified byte tests leading to FileErrNullBytes (expected 1)" % len(tests))
+    t0 = tests[0]
+    rep.examined(R124, bzb.path + "|nul-test", sample=t0)
+    if t0["take"] is None:
+        rep.violation(R124, bzb.path + "|nul-test", "blockzero_analysis_bytes: the NUL-byte test (line %d) ranges over the whole first block (iterator chain %s, no take(CONST)); whether a file that begins with a run of NUL "
+                      "bytes is rejected then depends on --blocksz (rejected when the block ends inside the run, printed otherwise)" % (t0["line"], t0["chain"]))
+    # ------------------------------------------------------------ R12.5 lift of C11 R11.3
+    import contextlib as _cl, io as _io
+    import c11 as _c11
+    R125 = rep.rule("R12.5", "a streamed year-less log keeps its blocks on every accepting path (from C11 R11.3)")
+    _sub11 = Report("C11", "quick", dict(rep.meta))
+    _sub11.finish = lambda *a, **k: 0
+    with _cl.redirect_stdout(_io.StringIO()):
+        _c11.run(prog, _sub11, "quick")
+    for (rid_, key_, what_, det_) in _sub11.violations:
+        if rid_ == "R11.3":
+            rep.violation(R125, key_.split("|", 1)[1], what_ + " [the cut depends on the number of blocks, i.e. on --blocksz]")
+    for k_ in sorted(_sub11.rules.get("R11.3", {}).get("keys", ())):
+        rep.examined(R125, k_, sample={"rule": "R11.3", "instance": k_})
+    rep.floor("R12.5", 2)
 
     return rep.finish(
         "Static necessary-condition check: (R12.1) no value derived from the length of block zero may select the count that decides file "
